@@ -99,6 +99,10 @@ def _resume(what, session, match):
 
 
 WITNESSES = [
+    {"match": r"steps\.", "kind": "json-session", "props": ["C06"],
+     "input": ["let i = 0\nwhile i < 3 {\n  let y = i\n  i += 1\n  if y == 1 {\n    return\n  }\n}", "i", "y", "for k in [1, 2] {\n  let z = k\n  match Some(k) {\n    Some(p) => { return p }\n    None => {}\n  }\n}", "z", "p", "40 + 2"],
+     "expect": {"py": "(lambda rs: '' if len(rs) == 7 and 'No such variable' in json.dumps(rs[2]) and 'No such variable' in json.dumps(rs[4]) and 'No such variable' in json.dumps(rs[5]) and '42' in json.dumps(rs[6]) else 'a variable of a block left by `return` at the top level of a session is still visible afterwards: %s' % json.dumps(rs)[-400:])(jsons(full_out))"},
+     "note": "`return` (bare or with a value) out of nested blocks of a session's top level drops their bindings"},
     _resume("a failed assert on a comparison, resumed", ["assert(1 == 2)"], r"steps\.eval_assert\."),
     _resume("a failed assert on an ordering, resumed", ["assert(1 < 0)"], r"steps\.eval_assert\."),
     _resume("`for` over a non-list, resumed", ["fun t1() { for x in 1 { 2 } }", "t1()"], r"steps\.eval_for_in\."),
